@@ -244,6 +244,65 @@ def noset_part(ctx, protos):
     ctx.extra['no_setstate_state_shape_cases'] = n
 
 
+# ---- multiple inheritance x the order in which classes are first met ------------------------------------------------------
+def mixin_part(ctx):
+    """The remote-aware __getstate__ comes from a base listed after (or before) a plain mix-in; the classes of a case are new,
+    what varies is which of them the pickler has met before (earlier in the same graph, in an earlier dumps call, not at all)."""
+    import itertools
+    import pyworkers.remote_pickle as rp
+    n = 0
+    for marker, mixin_first, mixin_has_getstate, history in itertools.product((True, False), (True, False), (False, True),
+                                                                               ('none', 'mixin-earlier-in-graph', 'mixin-later-in-graph',
+                                                                                'mixin-in-earlier-dumps', 'base-in-earlier-dumps')):
+        n += 1
+        ctx.count()
+        ctx.distinct(('mixin', marker, mixin_first, mixin_has_getstate, history))
+        calls = []
+        ns_mixin = {'__module__': G.__name__}
+        if mixin_has_getstate:
+            ns_mixin['__getstate__'] = lambda self: dict(self.__dict__)           # a plain signature: not remote-aware
+        Mixin = type('MixPlain%d' % n, (object,), ns_mixin)
+
+        def getstate(self, remote=False):
+            calls.append((type(self).__name__, bool(remote)))
+            return dict(self.__dict__)
+        Base = type('MixBase%d' % n, (rp.SupportRemoteGetState,) if marker else (object,),
+                    {'__module__': G.__name__, '__getstate__': getstate, '__setstate__': lambda self, st: self.__dict__.update(st)})
+        try:
+            Part = type('MixPart%d' % n, (Mixin, Base) if mixin_first else (Base, Mixin), {'__module__': G.__name__})
+        except Warning:
+            ctx.outcome('mixin:rejected-by-the-metaclass')       # the inconsistent-signature clause (C13) refuses the class
+            continue
+        for c in (Mixin, Base, Part):
+            c.__qualname__ = c.__name__
+            setattr(G, c.__name__, c)
+        if mixin_first and mixin_has_getstate:
+            continue          # the mix-in's plain __getstate__ wins the MRO: Part is not remote-aware, nothing to check
+        part = Part()
+        part.v = 5
+        try:
+            if history == 'mixin-in-earlier-dumps':
+                rp.dumps([Mixin()])
+            elif history == 'base-in-earlier-dumps':
+                rp.dumps([Base()])
+            del calls[:]
+            graph = {'none': [part], 'mixin-earlier-in-graph': [Mixin(), part], 'mixin-later-in-graph': [part, Mixin()]}.get(history, [part])
+            loaded = rp.loads(rp.dumps(graph))
+            got = [c for c in calls if c[0] == Part.__name__]
+            lp = [o for o in loaded if type(o) is Part]
+            ok = got == [(Part.__name__, True)] and len(lp) == 1 and lp[0].__dict__.get('v') == 5
+            detail = {'getstate_calls_for_the_part': got}
+        except BaseException as e:  # noqa
+            ok = False
+            detail = {'raises': repr(e)[:200]}
+        ctx.outcome('mixin:' + ('ok' if ok else 'bad'))
+        if not ok:
+            ctx.violation('GRAPH/multiple-inheritance/%s/%s/%s' % ('marker-base' if marker else 'duck-typed', 'mixin-first' if mixin_first else 'base-first', history),
+                          {'part': 'multiple-inheritance', 'marker': marker, 'mixin_first': mixin_first, 'mixin_has_getstate': mixin_has_getstate, 'history': history},
+                          detail, 'the object is serialised with remote=True exactly once and comes back', engine='GRAPH')
+    ctx.extra['multiple_inheritance_cases'] = n
+
+
 def run(ctx):
     import logging
     logging.disable(logging.CRITICAL)
@@ -278,6 +337,7 @@ def run(ctx):
     # distinct cases were counted inside the shards (every (graph, protocol) pair is distinct by construction)
 
     noset_part(ctx, (None, 0, 2) if ctx.quick else (None, 0, 1, 2, 3, 4, 5))
+    mixin_part(ctx)
     ctx.sample({'spec': specs[len(specs) // 2], 'features': sorted(G.features(specs[len(specs) // 2]))})
     ctx.sample({'spec': specs[-1], 'features': sorted(G.features(specs[-1]))})
     ctx.extra['graphs'] = len(specs)
@@ -289,6 +349,11 @@ def run(ctx):
 
 def replay(ctx, rec):
     import json
+    if rec['case'].get('part') == 'multiple-inheritance':
+        import logging
+        logging.disable(logging.CRITICAL)
+        mixin_part(ctx)
+        return
     if rec['case'].get('part') == 'no-setstate-state-shapes':
         import logging
         logging.disable(logging.CRITICAL)
